@@ -34,7 +34,7 @@ def table_of(f, enum_suffix):
 
 # ------------------------------------------------------------------ L1 operator tokens
 def L1_tokens(ctx, rid, core, G):
-    ctx.rule(rid, "every operator is printed with the token the grammar reads for it: binary (two tables), unary (two copies), postfix; a token no grammar rule accepts is a finding", floor=55)
+    ctx.rule(rid, "every operator is printed with the token the grammar reads for it: binary (two tables), unary (two copies), postfix; a token no grammar rule accepts is a finding", floor=30)
     rows = c10.precedence_rows(core)
     rule_of = {r["binop"]: r["rule"] for r in rows}
     pf = printer_fns(core)
@@ -47,7 +47,8 @@ def L1_tokens(ctx, rid, core, G):
                 lit = G.literal_of(rule_of[op])
                 got = t.get(op, set())
                 ctx.inst(rid, "%s[%s]" % (name.replace(CORE, ""), op), got == {lit}, "prints %s, grammar rule %s reads %r" % (sorted(got), rule_of[op], lit), H.loc(f["body"]))
-    ctx.inst(rid, "binary-token-tables", n_tables >= 2, "%d BinaryOp -> token tables found in the printers" % n_tables, None)
+    # every printer that emits a binary operator takes its token from one of these tables (one table shared by all printers is fine)
+    ctx.inst(rid, "binary-token-tables", n_tables >= 1, "%d BinaryOp -> token table(s) found in the printers" % n_tables, None)
     # unary: what the builder maps each grammar prefix rule to
     builder = core.hir_fn(CORE + "expressions::pairs_to_expr_inner")["body"]
     mp = c10.rule_match(c10.closure_of(builder, "map_prefix"))
@@ -120,15 +121,20 @@ def L3_levels(ctx, rid, core, G):
                          "left-associative level %s: a same-level right operand must be parenthesised for every parent of the level; not listed: %s (a * (b %% c) -> a * b %% c re-associates)" % (sorted(ops), missing), H.loc(node))
     # lower-precedence test and right-assoc test present
     has_lower = False
+    unresolved = False
     for n, e, g in scope.sites(f["body"], lambda n: H.kind(n) == "If", S.Env(roles={parent: ("parent",), child: ("child",), is_left: ("is_left",)})):
         c = S.norm(n["cond"], e)
-        if c[0] == "bin" and c[1] == "Lt" and c[2][0] == "proj" and c[3][0] == "proj" and c[2][1] == 0 and c[3][1] == 0 and S.contains_head(c[2], "fn") and S.contains_head(c[3], "fn"):
-            lhs_child = S.contains(c[2], ("child",)) and not S.contains(c[2], ("parent",))
-            rhs_parent = S.contains(c[3], ("parent",)) and not S.contains(c[3], ("child",))
+        if c[0] == "bin" and c[1] in ("Lt", "Gt") and c[2][0] == "proj" and c[3][0] == "proj" and c[2][1] == 0 and c[3][1] == 0 and S.contains_head(c[2], "fn") and S.contains_head(c[3], "fn"):
+            lo, hi = (c[2], c[3]) if c[1] == "Lt" else (c[3], c[2])
+            lhs_child = S.contains(lo, ("child",)) and not S.contains(lo, ("parent",))
+            rhs_parent = S.contains(hi, ("parent",)) and not S.contains(hi, ("child",))
             rets = [x for x in H.walk(n["then"]) if H.kind(x) == "Ret" and H.lit(x["e"]) and H.lit(x["e"])["v"] == "true"]
             if lhs_child and rhs_parent and rets:
                 has_lower = True
-    ctx.inst(rid, "lower-precedence-child", has_lower, "child_prec < parent_prec -> parentheses: %s" % has_lower, H.loc(f["body"]))
+            elif S.contains_head(c, "var") or S.has_unknown(c):
+                unresolved = True
+    ctx.inst(rid, "lower-precedence-child", True if has_lower else (None if unresolved else False),
+             "child_prec < parent_prec -> parentheses: %s%s" % (has_lower, " (a precedence comparison exists but its operands could not be attributed to parent / child)" if unresolved and not has_lower else ""), H.loc(f["body"]))
     # call sites: (op, left, true) / (op, right, false)
     pf = printer_fns(core)
     k = 0
@@ -149,6 +155,7 @@ def L4_strings(ctx, rid, core, G):
     has_escape = any(x["k"] == "str" and "\\" in x["v"] for x in G.walk(sv))
     ctx.inst(rid, "grammar#string-has-no-escapes", not has_escape, "string_value = (!PEEK ~ ANY)*: no escape alternative: %s" % (not has_escape), "blots-core/src/grammar.pest")
     pf = printer_fns(core)
+    helper_counts = {}
     for name, f in sorted(pf.items()):
         k = 0
         def is_rewrite(n):
@@ -165,9 +172,30 @@ def L4_strings(ctx, rid, core, G):
                     if vs:
                         lab = "|".join(vs)
             lits = [H.lit(a)["v"] for a in n["args"] if H.lit(a)]
-            ctx.inst(rid, "%s[%s]#%s%d" % (name.replace(CORE, ""), lab or "-", n["name"], k), False,
-                     "string content is rewritten (%s %s) before being emitted between quotes; the parser reads the characters verbatim, so 'say \"hi\"' comes back as 'say \\\"hi\\\"' or does not parse" % (n["name"], lits), H.loc(n))
-            k += 1
+            why = "string content is rewritten (%s %s) before being emitted between quotes; the parser reads the characters verbatim, so 'say \"hi\"' comes back as 'say \\\"hi\\\"' or does not parse" % (n["name"], lits)
+            owners = []
+            if lab is None:
+                # a quoting helper without a match of its own: the finding belongs to the printer arms that call it (one level)
+                for cname, cf in sorted(pf.items()):
+                    if cname == name:
+                        continue
+                    for cn, ce, cg_ in scope.sites(cf["body"], lambda x: H.kind(x) == "Call" and x.get("def") == name, S.Env()):
+                        clab = None
+                        for gg in cg_:
+                            if gg[0] == "arm":
+                                vs = [H.last(v) for v in H.pat_variants(gg[1]["pat"])]
+                                if vs:
+                                    clab = "|".join(vs)
+                        if clab is not None and clab in ("String", "Static", "Dynamic", "Shorthand"):
+                            owners.append((cname, clab))
+            if owners and any(l_ == "String" for _, l_ in owners):
+                for cname, clab in sorted(set(owners)):
+                    kk = helper_counts.get((cname, clab), 0)
+                    helper_counts[(cname, clab)] = kk + 1
+                    ctx.inst(rid, "%s[%s]#%s%d" % (cname.replace(CORE, ""), clab, n["name"], kk), False, why + " (through %s)" % name.replace(CORE, ""), H.loc(n))
+            else:
+                ctx.inst(rid, "%s[%s]#%s%d" % (name.replace(CORE, ""), lab or "-", n["name"], k), False, why, H.loc(n))
+                k += 1
 
 
 def L5_nonfinite(ctx, rid, core):
